@@ -19,25 +19,25 @@ THEOREMS = [
     "BeyondVerif.C13.oemCovRows_match_writers",
     "BeyondVerif.C13.frames_roundtrip",
     "BeyondVerif.C13.cov_frame_alias_roundtrip",
-    "BeyondVerif.C13.man_frame_alias_roundtrip_partial",
+    "BeyondVerif.C13.man_frame_alias_roundtrip",
     "BeyondVerif.C13.written_units_known",
     "BeyondVerif.C13.man_xml_roundtrip",
     "BeyondVerif.C13.mans_xml_roundtrip",
     "BeyondVerif.C13.manFrameBack_ok",
-    "BeyondVerif.C13W.oem_xml_one_point_fails",
+    "BeyondVerif.C13W.oem_xml_one_point_ok",
     "BeyondVerif.C13W.oem_kvn_one_point_ok",
     "BeyondVerif.C13W.oem_xml_two_points_ok",
-    "BeyondVerif.C13W.oem_xml_one_cov_fails",
+    "BeyondVerif.C13W.oem_xml_one_cov_ok",
     "BeyondVerif.C13W.oem_kvn_one_cov_ok",
-    "BeyondVerif.C13W.opm_qsw_man_reloads_rsw",
+    "BeyondVerif.C13W.opm_qsw_man_ok",
     "BeyondVerif.C13W.opm_tnw_man_ok",
-    "BeyondVerif.C13W.opm_xml_one_user_defined_fails",
-    "BeyondVerif.C13W.opm_xml_empty_user_defined_fails",
-    "BeyondVerif.C13W.omm_xml_one_user_defined_fails",
-    "BeyondVerif.C13W.omm_loaded_cannot_be_dumped_kvn",
-    "BeyondVerif.C13W.tdm_xml_one_obs_fails",
-    "BeyondVerif.C13W.tdm_doppler_not_read",
-    "BeyondVerif.C13W.tdm_elevation_without_azimuth_fails",
+    "BeyondVerif.C13W.opm_one_user_defined_ok",
+    "BeyondVerif.C13W.opm_empty_user_defined_ok",
+    "BeyondVerif.C13W.omm_xml_one_user_defined_ok",
+    "BeyondVerif.C13W.omm_loaded_can_be_dumped_again",
+    "BeyondVerif.C13W.tdm_one_obs_ok",
+    "BeyondVerif.C13W.tdm_doppler_ok",
+    "BeyondVerif.C13W.tdm_elevation_without_azimuth_ok",
     "BeyondVerif.C13W.tdm_two_paths_reload_as_list",
 ]
 LEVEL_TEXT = ("Lean theorems over a structural model of beyond/io/ccsds (element trees, tokenised KVN lines, xml2dict / kvn2dict, the eight "
@@ -939,6 +939,15 @@ def read_tables():
     t["ommKvnNeedsTle"] = "tle.tle." in ast.get_source_segment(open(os.path.join(CCSDS_DIR, "omm.py")).read(), _func(omm, "_dumps_kvn"))
     t["tdmDumpsAcceptsList"] = "Measure" in ast.get_source_segment(open(os.path.join(CCSDS_DIR, "tdm.py")).read(), _func(tdm, "dumps")) and \
         "MeasureSet" in ast.get_source_segment(open(os.path.join(CCSDS_DIR, "commons.py")).read(), _func(commons, "detect2dump"))
+    # do the XML writers skip an empty user-defined dict (`if data._data.get(...)`) or write an empty element (`if ... in data._data`)
+    skips = []
+    for mod in (opm, omm):
+        for n in ast.walk(_func(mod, "_dumps_xml")):
+            if isinstance(n, ast.If) and "userDefinedParameters" in ast.dump(n) and "ccsds_user_defined" in ast.dump(n.test):
+                skips.append(not (isinstance(n.test, ast.Compare) and isinstance(n.test.ops[0], ast.In)))
+    if len(skips) != 2 or skips[0] != skips[1]:
+        raise RuntimeError(f"user-defined block of the OPM / OMM XML writers differs: {skips}")
+    t["xmlUdSkipsEmpty"] = skips[0]
     # which XML groups the readers wrap into a list
     w = {"opm": _wrapped_keys(_func(opm, "_loads_xml")), "omm": _wrapped_keys(_func(omm, "_loads_xml")),
          "oem": _wrapped_keys(_func(oem, "_loads_xml")), "tdm": _wrapped_keys(_func(tdm, "_loads_xml"))}
@@ -978,6 +987,7 @@ def extract(ctx):
     L.append(f"def tdmAngleTrig : List String := {lstr(t['tdmAngleTrig'])}")
     L.append(f"def tdmRangeTrig : List String := {lstr(t['tdmRangeTrig'])}")
     L.append(f"def ommKvnNeedsTle : Bool := {'true' if t['ommKvnNeedsTle'] else 'false'}")
+    L.append(f"def xmlUdSkipsEmpty : Bool := {'true' if t['xmlUdSkipsEmpty'] else 'false'}")
     L.append(f"def tdmDumpsAcceptsList : Bool := {'true' if t['tdmDumpsAcceptsList'] else 'false'}")
     for k, v in t["wrap"].items():
         L.append(f"def {k} : Bool := {'true' if v else 'false'}")
